@@ -1209,7 +1209,7 @@ def run(ctx):
                            ('two', 'mixed', 'obs', 'hist') if q else ('two', 'three', 'mixed', 'obs', 'hist'))
         ctx.note('replayed %d simulated behaviours' % n)
         # one long-lived optimizer, settings changed between fits, compared with freshly built optimizers
-        n = run_optimizer_history(ctx, 6 if q else 60)
+        n = run_optimizer_history(ctx, 6 if q else 30)
         ctx.note('replayed %d TLC-generated walks over the settings of a re-used optimizer' % n)
         run_traces(ctx, 45 if q else 600, 14 if q else 20)
         observe_overlapping(ctx)
